@@ -128,6 +128,9 @@ def covered(rng, n):
     return set(range(a, b_ + 1))
 
 
+import os as _os, sys as _sys
+THOROUGH = 'thorough' in _sys.argv or _os.environ.get('VERIF_TIER') == 'thorough'
+
 SRC2 = '''
 def two_stages(self, r1, r2, col1, col2):
     reg = self._reg
@@ -142,7 +145,7 @@ def two_stages(self, r1, r2, col1, col2):
 '''
 for i1, (rr1, cc1) in enumerate([(r, c_) for r in ROWS for c_ in COLS]):
     for i2, (rr2, cc2) in enumerate([(ROWS[1], COLS[5]), (ROWS[3], COLS[3]), (ROWS[4], COLS[0]), (ROWS[0], COLS[4])]):
-        if (i1 + i2) % 3:           # a third of the 120 combinations in the quick tier
+        if (i1 + i2) % 3 and not THOROUGH:           # a third of the 120 combinations in the quick tier, all in thorough
             continue
         c = contract('bardolph/vm/machine.py', 'two_stages', serves=['C15', 'C01'], src=SRC2,
                      name='lemma:set L begin stage %s/%s stage %s/%s end' % (rr1, cc1, rr2, cc2))
